@@ -269,6 +269,7 @@ def generate(rng, config):
             "dag": ["peb", "stone"]}[gtype])
     return {"type": gtype, "construction": c, "args": args, "mods": mods,
             "position": position,
+            "earlier": config == "lib" and rng.random() < 0.15,
             "save": save, "cli": config == "cli", "resave": resave,
             "locale": rng.choice([None, None, None, "ascii", "latin-1"]),
             "save_pos": rng.randint(0, len(mods)) if save else None,
@@ -781,6 +782,16 @@ def execute(case, ctx):
     if case.get("locale"):
         fs.locale_encoding = case["locale"]
     full = _spec(case)
+    if case.get("earlier"):
+        # an earlier request of the same process: the same construction
+        # with a modifier that works in place (every request is served
+        # with a graph of its own)
+        toks = [case["construction"]] + list(case["args"]) + \
+            {"simple": ["addedges", "1"], "bipartite": ["addedges", "1"],
+             "dag": []}[gtype]
+        with open_router(fs):
+            _build(case, toks)
+        ctx.fault("earlier_request_in_the_same_process")
     with open_router(fs):
         res, sim = _build(case, full)
     if sim.adversarial:
